@@ -95,7 +95,7 @@ fn long_text(n: u64) -> String {
 impl World {
     fn new() -> Result<World, String> {
         // tmpfs when available: every commit fsyncs several times
-        let dir = if std::path::Path::new("/dev/shm").is_dir() { tempfile::tempdir_in("/dev/shm") } else { tempfile::tempdir() }.map_err(|e| e.to_string())?;
+        let dir = if std::env::var_os("TMPDIR").is_none() && std::path::Path::new("/dev/shm").is_dir() { tempfile::tempdir_in("/dev/shm") } else { tempfile::tempdir() }.map_err(|e| e.to_string())?;
         let path = dir.path().join("c15.mv2");
         let t0 = std::time::Instant::now();
         let mem = Memvid::create(&path).map_err(|e| format!("create: {e}"))?;
@@ -505,7 +505,7 @@ fn gen_queries(rng: &mut Rng, table: &[Row], k: usize) -> Vec<Q> {
 /// rounds of 0-7 mutations followed by a commit-like step
 fn gen_history(rng: &mut Rng, thorough: bool) -> Vec<Op> {
     let style = rng.below(4);
-    let rounds = rng.usize(1, if thorough { 7 } else { 4 });
+    let rounds = rng.usize(1, if thorough { 6 } else { 3 });
     let img_w = *rng.pick(&[0u64, 1, 3, 6]);
     let mut ops = vec![];
     for _ in 0..rounds {
@@ -628,7 +628,7 @@ fn main() {
         "random histories on real .mv2 files (rounds of put with explicit timestamps: equal / negative / i64 extremes; roles document, \
          chunk (auto-chunked long text and role given directly), extracted image; delete, update; each round closed by commit, \
          commit+reopen, reopen (WAL recovery), commit_skip_indexes (+finalize_indexes), doctor, vacuum); after every commit-like step \
-         (and sometimes with pending operations) the frame table and the stored time index are read back and 2 fixed + 6-10 random \
+         (and sometimes with pending operations) the frame table and the stored time index are read back and 2 fixed + 8-10 random \
          TimelineQuery (since/until from the table ±1 and extremes, limit around the result size and u64::MAX, reverse) are evaluated; \
          one case = (frame table, stored index, query); non-trivial = at least 2 listed frames; plus raw time-index tracks for \
          append_track/read_track");
@@ -681,10 +681,10 @@ fn main() {
     let mut jobs: Vec<(Vec<Op>, Rng, usize, Option<Vec<Q>>)> = vec![];
     let n_corpus = corpus().len();
     for (ops, qs) in corpus() { jobs.push((ops, rng.fork(), 0, Some(qs))); }
-    let n_hist = if args.thorough { 600 } else { 30 };
+    let n_hist = if args.thorough { 500 } else { 16 };
     for _ in 0..n_hist {
         let ops = gen_history(&mut rng, args.thorough);
-        jobs.push((ops, rng.fork(), if args.thorough { 10 } else { 6 }, None));
+        jobs.push((ops, rng.fork(), if args.thorough { 10 } else { 8 }, None));
     }
     let deadline = std::time::Instant::now() + std::time::Duration::from_secs(if args.thorough { 1000 } else { 150 });
     let runs = exec_parallel(jobs, 4, deadline);
